@@ -78,7 +78,8 @@ def make_trace(mode: str, scn: dict, run: dict, *, c12: bool, c13: bool = True, 
                 "pred": scn.get("pred") or PRED0},
         "events": run["events"],
         "final": {"status": f["status"], "kind": f["kind"], "rb": f["rb"], "rnone": f["rnone"], "val": f["val"],
-                  "residual": f["residual"], "attr": f["attr"], "elapsed": f["elapsed"], "slack": f.get("slack", 0)},
+                  "residual": f["residual"], "attr": f["attr"], "elapsed": f["elapsed"], "slack": f.get("slack", 0),
+                  "spawned": f.get("spawned", []), "late": f.get("late", [])},
         "c12": c12,
         "c13": c13,
     }
